@@ -1,6 +1,6 @@
 /* harnesses for C11 (repetitions) */
 uint64_t IN_type, IN_cols, IN_rows, IN_n, IN_gk;
-double IN_a, IN_b, IN_c, IN_d, IN_cv;
+double IN_a, IN_b, IN_c, IN_d, IN_cv, IN_cs[3];
 static Repetition c11_rep;
 static Array_Vec2 c11_result;
 static void c11_state(void) {
@@ -9,6 +9,9 @@ static void c11_state(void) {
     GK = IN_gk;
     memset(&c11_rep, 0, sizeof c11_rep);
     VF_ASSUME(IN_type <= 5);
+#ifdef VF_EXPLICIT_ONLY
+    VF_ASSUME((IN_type == 4 || IN_type == 5) && IN_n <= 3);
+#endif
 #ifdef VF_LATTICE_ONLY
     VF_ASSUME(IN_type == 1 || IN_type == 2);
 #endif
@@ -26,10 +29,17 @@ static void c11_state(void) {
         c11_rep.coords.items = IN_n ? (double *)malloc(sizeof(double) * IN_n) : NULL;
         VF_ASSUME(IN_n == 0 || c11_rep.coords.items != NULL);
 #ifdef VF_CBMC
+#ifdef VF_EXPLICIT_ONLY
+        for (int k = 0; k < 3; k++) if ((uint64_t)k < IN_n) { IN_cs[k] = nondet_double(); VF_ASSUME(IN_cs[k] == IN_cs[k]); c11_rep.coords.items[k] = IN_cs[k]; }
+#else
         if (GK < IN_n) { IN_cv = nondet_double(); c11_rep.coords.items[GK] = IN_cv; }
+#endif
 #else
         for (uint64_t k = 0; k < IN_n; k++) c11_rep.coords.items[k] = 0;
         if (GK < IN_n) c11_rep.coords.items[GK] = vf_bits_double(vf_input("IN_cv", 0));
+#ifdef VF_EXPLICIT_ONLY
+        { char key[32]; for (int k = 0; k < 3; k++) if ((uint64_t)k < IN_n) { snprintf(key, sizeof key, "IN_cs[%d]", k); c11_rep.coords.items[k] = vf_bits_double(vf_input(key, 0)); } }
+#endif
 #endif
     } else if (IN_type == 3) {
         c11_rep.offsets.count = 0; c11_rep.offsets.capacity = 0; c11_rep.offsets.items = NULL;
